@@ -163,3 +163,50 @@ def check(run):
     _p09.route_algebra_rules(run)
     _p09.channel_route_direction_rule(run)
     run.floor('R2', 4)
+
+
+def _route_tables(run):
+    """io_context's per-address route tables: each entry is the configuration's route FOR THE ADDRESS IT IS FILED UNDER."""
+    import re
+    fx = run.fx
+    run.clause('a node\'s traffic crosses the hops configured for the address it is sent from: in io_context\'s constructors every entry of m_outgoing_route / m_incoming_route is filed under the very address the configuration was asked about, and in the table of the same direction')
+    n_ent = 0
+    for f in [g for g in fx.repo_functions() if g.norm == 'sim::asio::io_context::io_context']:
+        cs = [c for c in f.calls() if (q.callee_name(c) or '') in ('sim::configuration::outgoing_route', 'sim::configuration::incoming_route')]
+        if not cs:
+            continue
+        run.touch(f)
+        for c in cs:
+            kind = q.callee_name(c).split('::')[-1].split('_')[0]       # outgoing / incoming
+            asked = q.render(f, c['args'][0]) if c.get('args') else ''
+            table, key = None, None
+            for a in f.ancestors(c):
+                if a['k'] != 'call':
+                    continue
+                txt = q.render(f, a)
+                m = re.match(r'^\(?(?:this->)?m_(outgoing|incoming)_route\[(.*?)\] = ', txt)
+                if m:
+                    table, key = m.group(1), m.group(2)
+                    break
+                ob = q.render(f, a.get('obj')).replace('this->', '') if a.get('obj') is not None else ''
+                m = re.match(r'^m_(outgoing|incoming)_route$', ob)
+                if m and (a.get('callee') or '').split('::')[-1] in ('emplace', 'try_emplace', 'insert_or_assign') and a.get('args'):
+                    table, key = m.group(1), q.render(f, a['args'][0])
+                    break
+            if table is None:
+                run.broke('io_context constructor: the route returned by configuration::%s_route(%s) is not stored by a form the rule knows (m_x_route[key] = .. / emplace(key, ..))' % (kind, asked))
+                continue
+            n_ent += 1
+            run.check(table == kind and key == asked, 'R2k', 'route-filed-under-its-address', '%s: m_%s_route[%s] <- %s_route(%s)' % (f.norm, table, key, kind, asked), f.loc(c),
+                      'the %s route looked up for `%s` is filed under `%s` in m_%s_route: on a multi-homed node an address gets the hops (NAT, queues) configured for another one - a sender that is not behind a NAT is reported with the NAT\'s address, or a sender behind one escapes it' % (kind, asked, key, table),
+                      'key == address asked about, same direction')
+    if n_ent < 2:
+        run.broke('io_context constructors: %d route-table entries found (2 confirmed by hand: outgoing and incoming in the vector constructor)' % n_ent)
+
+
+_check_r8 = check
+
+
+def check(run):
+    _check_r8(run)
+    _route_tables(run)
